@@ -58,7 +58,6 @@ func (r *response) Reply(v EncoderDecoder) (int, error) {
 		r.Errorf(r.ctx, "unable to marshal packet; %v", err)
 		return 0, err
 	}
-	r.header = *header
 	p := NewPacket(
 		SetPacketHeader(header),
 		SetPacketBody(b),
@@ -71,7 +70,13 @@ func (r *response) Reply(v EncoderDecoder) (int, error) {
 			}
 		}
 	}
-	return r.Write(p)
+	n, err := r.Write(p)
+	if err != nil {
+		// nothing went out (e.g. the body is larger than a packet may carry): the sequence number is not used up
+		return n, err
+	}
+	r.header = *header
+	return n, nil
 }
 
 // Write will write the packet to the underlying net.Conn.  If you are expecting another packet
